@@ -29,6 +29,11 @@ func (s *State) LoginEnable(pass string, cfg *program.Config) {
 	if waitPrompt(pass, ">") {
 		// Enter enable mode.
 		if !waitPrompt("enable", "#") {
+			// Must not send password to command prompt, where it would
+			// be echoed by device and written to log file.
+			if !strings.HasSuffix(strings.ToLower(out), "password:") {
+				errlog.Abort("Authentication for enable mode failed")
+			}
 			// Enable password required.
 			// Use login password as enable password.
 			if !waitPrompt(pass, "#") {
